@@ -598,7 +598,46 @@ fn gen_program(r: &mut Rng) -> Gen {
     }
     let mut body = format!("[{}]", parts.join(", "));
     // concurrency inside the body
-    match r.below(8) {
+    match r.below(12) {
+        2 => {
+            // a BARE process value reaches a run-time type test; the spawning function's receive
+            // ('int) and result (a tuple / a Str / an int) types differ or coincide at random
+            let result = *r.pick(&["[!#'int, 1]", "[x: !#'int, y: 0x01]", "!#'int", "Got[!#'int]"]);
+            defs.push("classify = #(@'int | 'int | 'bin) { | =(@'int) => 1 | ='int => 2 | ='bin => 3 }".to_string());
+            defs.push(format!("worker = #{{ {result} }}"));
+            let probe = *r.pick(&["&w classify", "&w classify", "5 classify", "0x0a classify"]);
+            body = format!("w = @worker, c = {probe}, {} w, r = !w, [c, r, {}]", r.pick(&ints), parts.join(", "));
+            feats.push("istype-bare-process");
+        }
+        3 => {
+            // the pid is the top-level MESSAGE: the server's mailbox filter must accept it
+            let result = *r.pick(&["[!#'int, 1]", "Got[!#'int]", "!#'int"]);
+            defs.push(format!("worker = #{{ {result} }}"));
+            defs.push(format!("server = #{{ w = !#(@'int), {} w }}", r.pick(&ints)));
+            body = format!("w = @worker, s = @server, &w s, r = !w, [r, {}]", parts.join(", "));
+            feats.push("process-value-as-message");
+        }
+        4 => {
+            // F13 shape, but the child returns something other than what it receives
+            defs.insert(0, "'pr = @'int".to_string());
+            defs.insert(1, "'par = @'pr".to_string());
+            let tail = *r.pick(&["[!'int, 1]", "Got[!'int]", "!'int"]);
+            body = format!(
+                "g = #'par {{ =parent, &. parent, {tail} }}, me = &., p = &me @g, !#'pr =q, {} q, r = !p, [r, {}]",
+                r.pick(&ints),
+                parts.join(", ")
+            );
+            feats.push("typed-receive-process-differing-result");
+        }
+        5 => {
+            // a builtin value and a closure as bare values in a run-time type test inside the body
+            body = format!(
+                "pickf = #'int {{ | =0 => &__integer_multiply__ | =1 => &__integer_abs__ | 5 }}, v = {} pickf, k = v {{ | =('int)i => i | =(#['int, 'int] -> 'int)g => [3, 4] g | =(#'int -> 'int)h => -9 h }}, [k, {}]",
+                r.range(0, 2),
+                parts.join(", ")
+            );
+            feats.push("istype-bare-builtin");
+        }
         0 => {
             body = format!(
                 "p = @{{ !'int [~, {}] __integer_add__ }}, {} p, r = !p, [r, {}]",
